@@ -595,3 +595,101 @@ def weighted_local_clustering(Wm):
         den = mx * sum(Wm[i, j] * Wm[l, i] for j in range(n) for l in range(n))
         out[i] = num / den if den else np.nan
     return out
+
+
+def nsi_newman_betweenness(A, w, add_local_ends=False):
+    """n.s.i. Newman random-walk (current-flow) betweenness from circuit
+    terms, per component: conductances C_ij = w_i A_ij w_j, the unit current
+    of "source s" is injected spread over the closed neighbourhood N+(s)
+    proportionally to the node weights (q_s[m] = A+_ms w_m / k*_s), the
+    potentials come from the pseudo-inverse of the conductance Laplacian, and
+    b_i = sum_{j in N(i)} w_j sum_{t<s; s,t not in N+(i)} w_s w_t
+          |(p_i - p_j) for the injection q_s - q_t|
+    (+ (2W - k*_i) k*_i with add_local_ends, W the component's weight)."""
+    U = sym(A)
+    w = np.asarray(w, dtype=float)
+    n = len(U)
+    out = np.zeros(n)
+    from vp.gen.graphs import components
+    for comp in components(U):
+        m = len(comp)
+        wc = w[comp]
+        if m < 2:
+            if add_local_ends:
+                out[comp[0]] = wc[0] ** 2
+            continue
+        B = U[np.ix_(comp, comp)].astype(float)
+        Bp = B + np.eye(m)
+        k = Bp @ wc
+        C = wc[:, None] * B * wc[None, :]
+        T = np.linalg.pinv(np.diag(C.sum(axis=1)) - C)
+        Q = (Bp * wc[:, None]) / k[None, :]      # column s = injection q_s
+        P = T @ Q                                # column s = potentials
+        b = np.zeros(m)
+        for i in range(m):
+            free = [s for s in range(m) if not Bp[i, s]]
+            for j in range(m):
+                if not B[i, j]:
+                    continue
+                d = P[i, free] - P[j, free]
+                tot = 0.0
+                for a in range(len(free)):
+                    for c in range(a):
+                        tot += wc[free[a]] * wc[free[c]] * abs(d[a] - d[c])
+                b[i] += wc[j] * tot
+        if add_local_ends:
+            b += (2.0 * wc.sum() - k) * k
+        out[comp] = b
+    return out
+
+
+def nsi_arenas_betweenness(A, w, exclude_neighbors=True,
+                           stopping_mode="neighbors"):
+    """n.s.i. Arenas-type random-walk betweenness, per component: a walker
+    at node a moves to b in N+(a) with probability w_b / k*_a.  For target i
+    the walk stops when it stands on a node of N+(i) ("neighbors"), or
+    continues from such a node k only with probability 1 - twinness(i, k)
+    ("twinness").  n_i(s -> j) = expected number of moves INTO j of a walk
+    started at s;  b_j = (1 / w_j) sum_i w_i sum_s w_s n_i(s -> j), where with
+    exclude_neighbors sources s and nodes j inside N+(i) do not count.
+    "neighbors": from the fundamental matrix of the absorbing chain;
+    "twinness": from the Neumann series solved densely."""
+    U = sym(A)
+    w = np.asarray(w, dtype=float)
+    n = len(U)
+    out = np.zeros(n)
+    from vp.gen.graphs import components
+    for comp in components(U):
+        m = len(comp)
+        if m < 2:
+            continue
+        wc = w[comp]
+        B = U[np.ix_(comp, comp)].astype(float)
+        Bp = B + np.eye(m)
+        k = Bp @ wc
+        P = Bp * wc[None, :] / k[:, None]
+        tw = nsi_twinness(B, wc) if stopping_mode == "twinness" else None
+        b = np.zeros(m)
+        for i in range(m):
+            near = Bp[i] > 0
+            if stopping_mode == "twinness":
+                Pi = P.copy()
+                for a in np.nonzero(near)[0]:
+                    Pi[a] *= 1.0 - tw[i, a]
+                V = np.linalg.solve(np.eye(m) - Pi, Pi)
+            else:
+                tr = np.nonzero(~near)[0]
+                ab = np.nonzero(near)[0]
+                V = np.zeros((m, m))
+                if len(tr):
+                    F = np.linalg.inv(np.eye(len(tr)) - P[np.ix_(tr, tr)])
+                    V[np.ix_(tr, tr)] = F - np.eye(len(tr))
+                    V[np.ix_(tr, ab)] = F @ P[np.ix_(tr, ab)]
+            if exclude_neighbors:
+                free = (~near).astype(float)
+                bs = ((wc * free) @ V) * free
+            else:
+                bs = wc @ V
+            b += wc[i] * bs
+        out[comp] = b / wc
+    return out
